@@ -441,11 +441,13 @@ def c17_case(tdir, d, k, b):
     import shutil as _sh
     _sh.copyfile(b["bwpath"], bw)
     bed = os.path.join(d, "r_%s.bed" % tag)
-    with open(bed, "w") as f:
+    with open(bed, "w", newline="") as f:
         for i, r in enumerate(b["regions"], 1):
             # every fifth list: a sixth column of 20 000 characters on every third line (lines longer than any reader buffer)
             extra = ("\t" + "annotation" * 2000) if (k % 5 == 0 and i % 3 == 1) else ""
-            f.write("%s\t%d\t%d\tr%d\tx%d%s\n" % (chrom_name(r[0]), r[1], r[2], i, i, extra))
+            # (every third list: Windows line ends; every fourth: the last line is not terminated)
+            eol = "" if (k % 4 == 3 and i == len(b["regions"])) else ("\r\n" if k % 3 == 1 else "\n")
+            f.write("%s\t%d\t%d\tr%d\tx%d%s%s" % (chrom_name(r[0]), r[1], r[2], i, i, extra, eol))
     out = os.path.join(d, "o_%s.txt" % tag)
     args = [bw, bed, out, "-t", str(b["threads"])]
     nm = b["name"]
